@@ -63,12 +63,25 @@ def host_spec(host, conv):
     return out
 
 
-def run_scenario(scn, tid, parser_factory=None):
-    """Execute one scenario on a fresh SqParser; return the case record for TLC."""
+_shared_parser = None
+
+
+def run_scenario(scn, tid, parser_factory=None, fresh=None):
+    """Execute one scenario; return the case record for TLC.  By default one SqParser per
+    process is shared by all scenarios (constructing one costs 0.1-0.2 s because PLY rebuilds
+    its tables); scenarios that ask for it (scn['fresh'] or fresh=True) get their own."""
+    global _shared_parser
     impl = TRACER.install()
     SqParser = impl['sq_parser'].SqParser
     conv = Conv(impl)
-    parser = parser_factory() if parser_factory else SqParser()
+    if parser_factory:
+        parser = parser_factory()
+    elif fresh or scn.get('fresh'):
+        parser = SqParser()
+    else:
+        if _shared_parser is None:
+            _shared_parser = SqParser()
+        parser = _shared_parser
     host = scn.get('host', {})
     hostfns = {k: make_host(k, b, conv) for k, b in host.items()}
     names_py = []
@@ -81,11 +94,8 @@ def run_scenario(scn, tid, parser_factory=None):
             rn[k] = f
     names0_list, heap0 = conv.initial(names_py)
     names0 = {'n%d' % (i + 1): nm for i, nm in enumerate(names0_list)}
-    calls = []
     counter = [0]
     nodeids = {}
-    events_all = []
-    anon = 0
     # capture the tree eval() obtains from parse()
     captured = {}
     orig_parse = parser.parse
@@ -97,6 +107,17 @@ def run_scenario(scn, tid, parser_factory=None):
             captured['spec'] = tree_to_spec(impl, t, conv, counter, nodeids)
         return t
     parser.parse = capturing_parse
+    try:
+        return _run_calls(scn, tid, impl, conv, parser, orig_parse, captured, hostfns, names_py, names0, heap0,
+                          counter, nodeids, host)
+    finally:
+        del parser.parse          # restore the class method on a shared parser
+
+
+def _run_calls(scn, tid, impl, conv, parser, orig_parse, captured, hostfns, names_py, names0, heap0, counter, nodeids, host):
+    calls = []
+    events_all = []
+    anon = 0
     digest0 = TRACER.functions_digest()
     for ci, c in enumerate(scn['calls']):
         kw = {}
@@ -178,23 +199,87 @@ def run_scenario(scn, tid, parser_factory=None):
     return case
 
 
-def validate(cases, deviations, workers=16, timeout=1800, coverage=False, keep=None):
-    """Run TLC on the recorded cases.  Returns (verdicts by tid, TlcResult)."""
+class MultiResult:
+    """Aggregate of several TLC runs (one per chunk of cases)."""
+
+    def __init__(self, results):
+        self.results = results
+        self.rc = max((r.rc for r in results), default=0)
+        self.generated = sum(r.generated for r in results)
+        self.distinct = sum(r.distinct for r in results)
+        self.wall = max((r.wall for r in results), default=0.0)
+        self.out = '\n'.join(r.out[-6000:] for r in results if r.rc != 0) or (results[0].out[-3000:] if results else '')
+        self.invariant_violated = next((r.invariant_violated for r in results if r.invariant_violated), None)
+        self.timed_out = any(r.timed_out for r in results)
+
+    def coverage(self):
+        cov = {}
+        for r in self.results:
+            for k, (a, b) in r.coverage().items():
+                x = cov.get(k, (0, 0))
+                cov[k] = (x[0] + a, x[1] + b)
+        return cov
+
+
+def validate(cases, deviations, procs=16, timeout=1800, coverage=False, keep=None, module='TraceVM', cfg=None, props=None):
+    """Validate the recorded cases with TLC: the cases are split into chunks, one
+    single-worker TLC process per chunk (measured: one 16-worker TLC is slower than one
+    worker on these chain-shaped state graphs; 16 processes scale linearly).
+    Returns (verdicts by tid, MultiResult)."""
+    from concurrent.futures import ThreadPoolExecutor
     d = common.scratch_dir('vmcases')
-    path = os.path.join(d, 'cases_%d_%d.json' % (os.getpid(), int(time.time() * 1000) % 100000))
-    with open(path, 'w') as f:
-        json.dump({'deviations': sorted(deviations), 'cases': cases}, f)
+    nchunks = max(1, min(procs, (len(cases) + 24) // 25))
+    chunks = [cases[i::nchunks] for i in range(nchunks)]
+    stamp = '%d_%d' % (os.getpid(), int(time.time() * 1000) % 1000000)
+    paths = []
+    for ci, ch in enumerate(chunks):
+        path = os.path.join(d, 'cases_%s_%d.json' % (stamp, ci))
+        with open(path, 'w') as f:
+            json.dump({'deviations': sorted(deviations), 'cases': ch, 'props': (not deviations) if props is None else bool(props)}, f)
+        paths.append(path)
     if keep:
-        import shutil
-        shutil.copy(path, keep)
-    res = common.run_tlc('TraceVM.tla', cfg='TraceVM.cfg', workers=workers, env={'CASES_FILE': path}, timeout=timeout,
-                         coverage=coverage)
+        with open(keep, 'w') as f:
+            json.dump({'deviations': sorted(deviations), 'cases': cases, 'props': (not deviations) if props is None else bool(props)}, f)
+
+    def one(path):
+        return common.run_tlc(module + '.tla', cfg=cfg or (module + '.cfg'), workers=1, env={'CASES_FILE': path},
+                              timeout=timeout, coverage=coverage, heap='3g')
+    with ThreadPoolExecutor(max_workers=nchunks) as ex:
+        results = list(ex.map(one, paths))
     verdicts = {}
-    for r in res.printed():
-        if 'tid' in r and 'v' in r:
-            verdicts[r['tid']] = r
+    for res in results:
+        for r in res.printed():
+            if 'tid' in r and 'v' in r:
+                verdicts[r['tid']] = r
+    for path in paths:
+        try:
+            os.remove(path)
+        except OSError:
+            pass
+    return verdicts, MultiResult(results)
+
+
+def _worker_init():
+    os.environ['SMARTQUERY_VERIF'] = '1'
+    TRACER.install()
+
+
+def _worker_run(arg):
+    tid, scn = arg
     try:
-        os.remove(path)
-    except OSError:
-        pass
-    return verdicts, res
+        return run_scenario(scn, tid)
+    except BaseException as e:   # noqa
+        return {'tid': tid, 'harness_error': ''.join(traceback.format_exception_only(type(e), e))[-500:]}
+
+
+def run_scenarios(scns, start_tid=1, procs=16):
+    """Run scenarios in a pool of worker processes (fork); returns case records in order."""
+    import multiprocessing as mp
+    common.snapshot_repo()
+    args = [(start_tid + i, s) for i, s in enumerate(scns)]
+    if procs <= 1 or len(scns) < 8:
+        _worker_init()
+        return [_worker_run(a) for a in args]
+    ctx = mp.get_context('fork')
+    with ctx.Pool(procs, initializer=_worker_init) as pool:
+        return pool.map(_worker_run, args, chunksize=max(1, len(args) // (procs * 4)))
